@@ -106,7 +106,7 @@ def run_cfg(shape, cfg, policy, d, variant=0):
         return None, None, out["verdict"] if out["verdict"] != "ok" else "raised %r" % (out.get("error"),)
     keys = [k for k, _ in explib.log_records(open(f).read().splitlines())]
     evals = [["I"] + json.loads(l) for l in open(side).read().splitlines()]
-    run = dict(cfg=dict(p=min(cfg["p"], 3), mt=cfg["mt"], ip=(cfg["p"] == 1 and cfg["mc"] == 0)), recs=keys, evals=evals, end="done", torn=0, tornk=["none"])
+    run = dict(cfg=dict(p=min(cfg["p"], 3), mt=cfg["mt"], ip=(cfg["p"] == 1 and cfg["mc"] == 0)), recs=keys, evals=evals, end="done", torn=0, tornk=["none"], nrep=-1)
     return explib.result_digest(out["value"]), run, "ok"
 
 
